@@ -35,7 +35,8 @@ SPEC = {
                                               "C03.shifted_roots", "C03.refConMuEta_complete", "C03.refConChiEta_complete", "C03.twoSampleReference_complete"],
         "DiffcalcProofs.Props.C03Assembly2": ["C03.twoSampleAndReference_eq", "C03.refSamp2_complete", "C03.refSamp2_psi_complete"],
         "DiffcalcProofs.Props.C03Assembly3": ["C03.triadMat_rot", "C03.calcN_triadMat", "C03.dot_rot", "C03.naz_qaz_relation", "C03.pm_roots", "C03.nazQazAngle_generic",
-                                              "C03.detOrNaz_complete", "C03.angleBetween_cos", "C03.nphiAlphaTau_tau", "C03.detRefSamp_complete"]},
+                                              "C03.detOrNaz_complete", "C03.angleBetween_cos", "C03.nphiAlphaTau_tau", "C03.detRefSamp_complete"],
+        "DiffcalcProofs.Props.C03Assembly4": ["C03.triad_decomposition", "C03.alpha_of_refSpec", "C03.calcPsi_complete", "C03.nphiAlphaTau_tau_eq", "C03.refSamp2_complete'"]},
     "level": "proof",
     "rule": "all 185 implemented modes: a random physical position P over (-180,180]^6 (constructed to satisfy the void / bisect / omega constraints where the "
             "mode has them), its constraint values read off with independent geometric pseudo-angles, hkl = forward model of P; P must be a regular point "
@@ -51,8 +52,8 @@ SPEC = {
                "the candidates of __calc_hkl_to_position, every angle mod 2 pi — three-sample (threeSample_complete), detector+two-sample, 27 shapes (detSamp2_complete, through decomposition of the forward "
                "model, bragg_of_fwd, detRemaining_complete incl. the sign filter, twoSampleDetector_complete), reference+two-sample, 42 shapes (refSamp2_complete with twoSampleReference_complete for all six "
                "branches; outright for the six psi modes), detector-or-naz+reference+one-sample, 112 shapes (detRefSamp_complete: _calc_N is a triad, the triad commutes with rotations, naz_qaz_relation, "
-               "detOrNaz_complete, remainingSample_complete). Left to correspondence + oracle: what the reference layer contributes (that P's psi is among the values __calc_psi yields; that the alpha it "
-               "derives from a beta / a_eq_b / betain / ... constraint is P's) enters the last two statements as a hypothesis on the produced value; side conditions are the generic branch at P and "
+               "detOrNaz_complete, remainingSample_complete). Left to correspondence + oracle: what the reference layer contributes (that the alpha it "
+               "derives from a beta / a_eq_b / betain / ... constraint is the elevation of P's laboratory reference direction; that P's psi is among the values __calc_psi yields is PROVED from that: alpha_of_refSpec, calcPsi_complete, refSamp2_complete') enters the last two statements as a hypothesis on the produced value; side conditions are the generic branch at P and "
                "'no sibling root makes a later layer raise'; the step from candidates to get_position (tidy-up, filter, guard) is filter_keeps_exact + hklMatches_exact + oracle.",
     "search_widen": 4,
 }
